@@ -109,6 +109,23 @@ def index_name_collision(muts):
     return False
 
 
+def index_column_touched(col, muts):
+    """an index that is there although it should not be is explained by the single-column-index finding only when the
+    run says something about that column's index or name: a db_index/unique/db_column attribute on its field, the field
+    added, renamed or deleted-and-re-added in this run"""
+    if not col:
+        return True
+    for m in muts:
+        names = [m.get('field'), m.get('old'), m.get('new')]
+        if not any(n and (col == n or col == n + '_id' or col.startswith(n + '_')) for n in names):
+            continue
+        if m['t'] in ('RenameField', 'AddField', 'DeleteField'):
+            return True
+        if m['t'] == 'ChangeField' and any(a in ('db_index', 'unique', 'db_column', 'primary_key') for a, _ in m['attrs']):
+            return True
+    return any(m['t'] in ('RenameModel',) for m in muts)
+
+
 def classify(evolved, fresh, rebuilt, muts, stepwise=False):
     """-> list of (finding id or None, text) for every difference between evolved and fresh"""
     out = []
@@ -170,7 +187,8 @@ def classify(evolved, fresh, rebuilt, muts, stepwise=False):
                     for m in muts):
                 out.append((F_CHECK_AS_INDEX, '%s: no index is created for %s: the scanned DatabaseState lists the column\'s '
                             'CHECK / FOREIGN KEY constraint as an index, so create_index() thinks one exists' % (t, ix[0])))
-            elif not multi and (rb or ((idx_touch or renames) and (not stepwise or rename_and_index_in_one(muts)))):
+            elif not multi and (rb or ((idx_touch or renames) and (not stepwise or rename_and_index_in_one(muts)))) and \
+                    (kind != 'extra' or index_column_touched(ix[0][0], muts)):
                 # one mutation at a time with the bookkeeping re-scanned before each, only a rebuild can lose or
                 # keep a single-column index wrongly; in a batched run the stale in-memory bookkeeping can too
                 out.append((F_SINGLE_INDEX, '%s: single-column index %s %s after a rebuild / index change / rename'
@@ -346,7 +364,24 @@ def index_family():
     ref_ix = {'fields': ['reference'], 'name': 'vapp_order_ref_idx'}       # keys in the order a hint writes them
     cm_ix = lambda *ix: {'t': 'ChangeMeta', 'model': 'Order', 'prop': 'indexes', 'py_value': list(ix)}
     plain_open = {'fields': ['amount'], 'name': 'vapp_order_open_idx'}
-    return [
+    # a field re-typed without any attribute (what a hint writes for CharField(max_length, db_index) -> TextField()):
+    # the new field has the attributes it states, i.e. none - then another change rebuilds the table
+    order = lambda ref, *more: {'apps': [{'id': 'vapp', 'models': [
+        {'name': 'Order', 'table': 'vapp_order', 'fields': [fld('id', 'AutoField', primary_key=True), ref,
+                                                            fld('amount', 'IntegerField', null=True)] + list(more),
+         'unique_together': [], 'index_together': [], 'indexes': [], 'constraints': []}]}]}
+    retyped = [
+        (order(fld('reference', 'CharField', max_length=20, db_index=True)),
+         [{'t': 'ChangeField', 'model': 'Order', 'field': 'reference', 'ftype': 'TextField', 'initial': None, 'attrs': []},
+          {'t': 'AddField', 'model': 'Order', 'field': 'extra', 'ftype': 'IntegerField', 'initial': None,
+           'attrs': [['null', 'true']]}],
+         order(fld('reference', 'TextField'), fld('extra', 'IntegerField', null=True))),
+        (order(fld('reference', 'CharField', max_length=20, unique=True)),
+         [{'t': 'ChangeField', 'model': 'Order', 'field': 'reference', 'ftype': 'TextField', 'initial': None, 'attrs': []},
+          {'t': 'ChangeField', 'model': 'Order', 'field': 'amount', 'ftype': None, 'initial': '0', 'attrs': [['null', 'false']]}],
+         order(fld('reference', 'TextField')))]
+    retyped[1][2]['apps'][0]['models'][0]['fields'][2] = fld('amount', 'IntegerField')
+    return retyped + [
         (part(open_ix), [cm_ix(plain_open)]),
         (part(open_ix, ref_ix), [cm_ix(plain_open, ref_ix)]),
         (part(ref_ix, open_ix), [cm_ix(ref_ix, plain_open)]),
@@ -475,8 +510,11 @@ def permuted_family():
     ]
 
 
-def family_case(spec, muts):
+def family_case(spec, muts, final_spec=None):
     sig = dbrig.sig_from_models(dbrig.build_models(spec))
+    if final_spec is not None:
+        # the evolved models are written down (the simulation under test is not asked what they are)
+        return spec, muts, dbrig.sig_from_models(dbrig.build_models(final_spec))
     r = sigs.real_simulate(sig, 'vapp', [sigs.real_mutation(m) for m in muts])
     if r[0] != 'ok':
         return None
